@@ -5,6 +5,7 @@ import (
 	"go/ast"
 	"go/token"
 	"go/types"
+	"golang.org/x/tools/go/packages"
 	"strings"
 )
 
@@ -399,4 +400,73 @@ func mapsAreKeyedOneWay(c *Ctx, rule string, rels ...string) {
 	}
 	c.count("string-keyed_map_fields", n)
 	c.floor(rule, 1)
+}
+
+// wholeValueHasher: fn is crypto/sha256.Sum256 (or Sum224 …), or a function of the package with one parameter that
+// hashes exactly that parameter: `return sha256.Sum256(p)`, or h := sha256.New(); h.Write(p) — once, with the
+// parameter (possibly converted) and nothing else — and a result taken from h.Sum(nil).
+func wholeValueHasher(p *packages.Package, fn *types.Func) bool {
+	if fn == nil {
+		return false
+	}
+	if strings.HasPrefix(fullName(fn), "crypto/sha256.Sum") {
+		return true
+	}
+	if fn.Pkg() != p.Types {
+		return false
+	}
+	info := p.TypesInfo
+	for _, fd := range allFuncDecls(p) {
+		if info.Defs[fd.Name] != types.Object(fn) || fd.Body == nil {
+			continue
+		}
+		prms := paramObjs(info, fd)
+		if len(prms) != 1 || prms[0] == nil {
+			return false
+		}
+		isParam := func(e ast.Expr) bool {
+			e = ast.Unparen(e)
+			if cv, ok := e.(*ast.CallExpr); ok && len(cv.Args) == 1 {
+				if tv, ok := info.Types[cv.Fun]; ok && tv.IsType() {
+					e = ast.Unparen(cv.Args[0])
+				}
+			}
+			id, ok := e.(*ast.Ident)
+			return ok && info.ObjectOf(id) == prms[0]
+		}
+		direct, nwrite, okWrite, sums := false, 0, true, 0
+		ast.Inspect(fd.Body, func(n ast.Node) bool {
+			call, ok := n.(*ast.CallExpr)
+			if !ok {
+				return true
+			}
+			cf := calleeOf(info, call)
+			if cf == nil {
+				return true
+			}
+			if strings.HasPrefix(fullName(cf), "crypto/sha256.Sum") && len(call.Args) == 1 && isParam(call.Args[0]) {
+				direct = true
+			}
+			if se, ok := ast.Unparen(call.Fun).(*ast.SelectorExpr); ok {
+				rt := info.TypeOf(se.X)
+				if rt != nil && strings.HasSuffix(rt.String(), "hash.Hash") {
+					switch se.Sel.Name {
+					case "Write":
+						nwrite++
+						if len(call.Args) != 1 || !isParam(call.Args[0]) {
+							okWrite = false
+						}
+					case "Sum":
+						sums++
+						if len(call.Args) != 1 || types.ExprString(call.Args[0]) != "nil" {
+							okWrite = false
+						}
+					}
+				}
+			}
+			return true
+		})
+		return direct || nwrite == 1 && okWrite && sums == 1
+	}
+	return false
 }
